@@ -474,6 +474,55 @@ fn cut_check(list: &[Rec], format: Format, wrap: Option<usize>, cut: usize, cc: 
     }
 }
 
+
+/// the seekable sniffer on a stream that is NOT positioned at offset 0 (a preamble precedes the
+/// records): the kind must be right, the position must be restored to where it was, and the
+/// matching parser started there must yield the records
+fn seek_sniff_check(list: &[Rec], format: Format, preamble: &[u8], cc: &mut CaseCtx) {
+    cc.nontrivial();
+    let body = write_bytes(list, format, None, false);
+    let mut data = preamble.to_vec();
+    data.extend_from_slice(&body);
+    let f = fname(format);
+    let k = preamble.len() as u64;
+    let r = guard(|| {
+        use std::io::{Seek, SeekFrom};
+        let mut cur = std::io::Cursor::new(&data[..]);
+        cur.seek(SeekFrom::Start(k)).unwrap();
+        let kind = fastx::get_kind_seek(&mut cur).map(|k| format!("{:?}", k).to_uppercase()).map_err(|e| e.to_string());
+        let pos = cur.position();
+        let got: Parsed = match format {
+            Format::Fastq => fastq::Reader::new(cur).records().take(list.len() + 3).map(|r| r.map(|r| Rec { id: r.id().to_string(), desc: r.desc().map(|s| s.to_string()), seq: String::from_utf8_lossy(r.seq()).to_string(), qual: String::from_utf8_lossy(r.qual()).to_string() }).map_err(|e| e.to_string())).collect(),
+            Format::Fasta => fasta::Reader::new(cur).records().take(list.len() + 3).map(|r| r.map(|r| Rec { id: r.id().to_string(), desc: r.desc().map(|s| s.to_string()), seq: String::from_utf8_lossy(r.seq()).to_string(), qual: String::new() }).map_err(|e| e.to_string())).collect(),
+        };
+        (kind, pos, got)
+    });
+    match r {
+        Err(msg) => cc.violation(format!("C11/{}/seek-sniffer/panic", f), msg),
+        Ok((kind, pos, got)) => {
+            cc.outcome(&(pos, got.len()));
+            let want_kind = if format == Format::Fastq { "FASTQ" } else { "FASTA" };
+            if !kind.as_ref().map(|k| k.contains(want_kind)).unwrap_or(false) {
+                cc.violation(format!("C11/{}/seek-sniffer/wrong-kind", f), format!("get_kind_seek at offset {} returned {:?}", k, kind));
+                return;
+            }
+            if pos != k {
+                cc.violation(format!("C11/{}/seek-sniffer/position-not-restored", f), format!("stream was at offset {}, after get_kind_seek it is at {}", k, pos));
+                return;
+            }
+            let want: Parsed = list.iter().map(|r| Ok(expect(r, format))).collect();
+            let same = got.len() == want.len()
+                && got.iter().zip(&want).all(|(g, w)| match (g, w) {
+                    (Ok(g), Ok(w)) => g == w || only_desc_trimmed(g, w),
+                    _ => false,
+                });
+            if !same {
+                cc.violation(format!("C11/{}/seek-sniffer/records-differ", f), format!("after sniffing at offset {}: {:?}, expected {:?}", k, got, want));
+            }
+        }
+    }
+}
+
 /// hostile tokens: record markers, line breaks, a letter, a blank, an invalid UTF-8 byte, and two
 /// multi-byte UTF-8 white-space characters (U+00A0, U+2003)
 const HOSTILE: [&[u8]; 10] = [b">", b"@", b"+", b"\n", b"\r", b"A", b" ", &[0xFF], &[0xC2, 0xA0], &[0xE2, 0x80, 0x83]];
@@ -529,7 +578,7 @@ fn layouts_for(list: &[Rec], tier: Tier, list_idx: usize, full: bool) -> Vec<Lay
     let mut v = vec![];
     let caps = [1usize, 2, 3, 7, 8192];
     for format in [Format::Fastq, Format::Fasta] {
-        let wraps: Vec<Option<usize>> = if format == Format::Fasta { vec![None, Some(1), Some(3), Some(4), Some(100)] } else { vec![None] };
+        let wraps: Vec<Option<usize>> = if format == Format::Fasta { vec![None, Some(1), Some(3), Some(4), Some(100), Some(usize::MAX), Some(usize::MAX - 1), Some(usize::MAX / 2 + 1)] } else { vec![None] };
         for wrap in wraps {
             let variants: Vec<Variant> = if wrap.is_none() { vec![Variant::AsWritten, Variant::Crlf, Variant::Rewrap(3), Variant::Rewrap(1), Variant::CrlfRewrap(3), Variant::CrlfRewrap(2)] } else { vec![Variant::AsWritten, Variant::Crlf] };
             for variant in variants {
@@ -598,6 +647,13 @@ fn list_unit(tier: Tier, shard: usize, ctx: &mut Ctx) {
         for lay in layouts_for(list, tier, li, single) {
             ctx.case(|| json!({"kind": "roundtrip", "records": list, "layout": lay}), |cc| roundtrip_check(list, &lay, cc));
         }
+        if single || li % 3 == 0 {
+            for format in [Format::Fastq, Format::Fasta] {
+                for preamble in [&b"#"[..], &b"junk line\n"[..], &b">not@a+record\n\n"[..]] {
+                    ctx.case(|| json!({"kind": "seek-sniff", "records": list, "format": format, "preamble": show(preamble)}), |cc| seek_sniff_check(list, format, preamble, cc));
+                }
+            }
+        }
         for (format, wrap) in [(Format::Fastq, None), (Format::Fasta, None), (Format::Fasta, Some(3))] {
             let n = write_bytes(list, format, wrap, false).len();
             for cut in 0..n {
@@ -635,7 +691,7 @@ impl Prop for C11Prop {
         "fault_enumeration"
     }
     fn rule(&self) -> &'static str {
-        "Record lists (all single records of a 6x10x6x5 alphabet (ids and descriptions include non-ASCII text and multi-byte white space), strided pairs, selected triples) are written by the real writers and read back under every layout of a grid: FASTA line wrap x {as written, CRLF, re-wrapped} x BufReader capacity {1,2,3,7,8192} x read() answer schedule (uniform <=1,<=2,<=3, cycles, unbounded; for single records every schedule with one short leading answer and every schedule with two) x API (records(), read() into a reused Record, EitherRecords); the sniffer additionally against the plain parser on streams whose first reads fail with ErrorKind::Interrupted; every truncation offset of the written bytes; every string of up to 5/6 tokens over {> @ + LF CR A space 0xFF U+00A0 U+2003} (the last two as multi-byte UTF-8). Each (list, layout) / (list, cut) / byte string is one case. Non-trivial: a read() answer or the buffer capacity splits a line, or the layout is CRLF/re-wrapped, or a non-default API; cuts: the cut falls inside a line; arbitrary: contains a line break and a record marker."
+        "Record lists (all single records of a 6x10x6x5 alphabet (ids and descriptions include non-ASCII text and multi-byte white space), strided pairs, selected triples) are written by the real writers and read back under every layout of a grid: FASTA line wrap x {as written, CRLF, re-wrapped} x BufReader capacity {1,2,3,7,8192} x read() answer schedule (uniform <=1,<=2,<=3, cycles, unbounded; for single records every schedule with one short leading answer and every schedule with two) x API (records(), read() into a reused Record, EitherRecords); the sniffer additionally against the plain parser on streams whose first reads fail with ErrorKind::Interrupted, and the seekable sniffer on streams positioned behind a preamble; every truncation offset of the written bytes; every string of up to 5/6 tokens over {> @ + LF CR A space 0xFF U+00A0 U+2003} (the last two as multi-byte UTF-8). Each (list, layout) / (list, cut) / byte string is one case. Non-trivial: a read() answer or the buffer capacity splits a line, or the layout is CRLF/re-wrapped, or a non-default API; cuts: the cut falls inside a line; arbitrary: contains a line break and a record marker."
     }
     fn assumptions(&self) -> Vec<&'static str> {
         vec![
@@ -647,7 +703,7 @@ impl Prop for C11Prop {
     fn bounds(&self, tier: Tier) -> Value {
         json!({
             "records": record_alphabet().len(), "lists": lists(tier).len(),
-            "fasta_wraps": "None,1,3,4,100", "variants": "as written, CRLF, re-wrap 3, re-wrap 1, CRLF+re-wrap 3, CRLF+re-wrap 2",
+            "fasta_wraps": "None,1,3,4,100,usize::MAX,usize::MAX-1,usize::MAX/2+1", "variants": "as written, CRLF, re-wrap 3, re-wrap 1, CRLF+re-wrap 3, CRLF+re-wrap 2",
             "bufreader_capacities": [1, 2, 3, 7, 8192],
             "schedules": tier.pick("uniform family (6); all 1-deviation schedules for single records; all 2-deviation schedules for every 8th single record", "uniform family (6); all 1- and 2-deviation schedules for single records"),
             "cuts": "every offset of the FASTQ bytes and of the FASTA bytes (wrap None and 3)",
@@ -672,6 +728,12 @@ impl Prop for C11Prop {
                 let list: Vec<Rec> = serde_json::from_value(case["records"].clone()).unwrap();
                 let lay: Layout = serde_json::from_value(case["layout"].clone()).unwrap();
                 ctx.case(|| case.clone(), |cc| roundtrip_check(&list, &lay, cc));
+            }
+            "seek-sniff" => {
+                let list: Vec<Rec> = serde_json::from_value(case["records"].clone()).unwrap();
+                let format: Format = serde_json::from_value(case["format"].clone()).unwrap();
+                let pre = unshow(case["preamble"].as_str().unwrap());
+                ctx.case(|| case.clone(), |cc| seek_sniff_check(&list, format, &pre, cc));
             }
             "cut" => {
                 let list: Vec<Rec> = serde_json::from_value(case["records"].clone()).unwrap();
